@@ -208,6 +208,10 @@ type world struct {
 	// The relatives are not part of the pool: batches, configurations and the proxy layer's workload do not change.
 	all  []*censorgen.Stmt
 	rels map[int][]int // pool statement -> its relatives
+	// schema-qualified families (qual.go): base statement (pool statement or extra base) -> its qualified relatives
+	qfam    map[int][]int
+	qbases  []int
+	dialect string // SQL dialect the current phase runs under ("" = the default, MySQL)
 }
 
 func (w *world) input(id int) Input { return Input{S: w.all[id]} }
@@ -310,6 +314,9 @@ func (w *world) predicates(h Handler, in Input) []predCheck {
 	if len(h.Tables) > 0 {
 		t, why := tablesMatch(h.Kind == "allow", h.Tables, in.S)
 		rel := map[Tri]string{Yes: "direct-table-listed", No: "table-not-listed", Undecided: why}[t]
+		if qualifiedNames(h.Tables, in.S) {
+			rel += ":schema-qualified-name"
+		}
 		out = append(out, predCheck{h.Kind, h.Tables, t, rel})
 	}
 	for _, p := range h.Patterns {
@@ -373,6 +380,9 @@ func (w *world) check(o *outcome, c *acracensor.AcraCensor, cfg *Config, in Inpu
 	kind := stmtKind(in)
 	base := map[string]interface{}{"config": string(cfg.YAML(acracensor.MinimalCensorConfigVersion)), "config_id": cfgTag, "seed": w.seed,
 		"statement_kind": kind}
+	if w.dialect != "" {
+		base["dialect"] = w.dialect
+	}
 	det := func(extra map[string]interface{}) map[string]interface{} {
 		d := map[string]interface{}{}
 		for k, v := range base {
@@ -814,6 +824,7 @@ func newWorld(seed int64, poolSize int) (w *world, refused []string, junkAccepte
 			w.rels[s.ID] = append(w.rels[s.ID], rel.ID)
 		}
 	}
+	refused = append(refused, w.addQualFamilies(seed, 28+poolSize/30, parser)...)
 	return w, refused, junkAccepted
 }
 
@@ -863,13 +874,17 @@ func Run(r *ev.Run) {
 		"(quick: all 6 variants of every statement; thorough: all 6 for 12 statements of each configuration, the reference spelling and one other variant for the remaining 22); " +
 		"distinct_nontrivial counts distinct (handler-kind chain shape, rule kind that decided, statement kind, verdict) tuples; " +
 		"rows phase: every INSERT ... VALUES statement of the pool gets row-count relatives (copy of a row appended; a row whose literals differ from every row's literal in the same column appended / prepended / inserted; a wider row appended; first / last row removed) and " +
-		"patterns derived from the statement and from its relatives with one more row are asked, alone in [allow: p, denyall] and [deny: p], about the statement and all its relatives"
+		"patterns derived from the statement and from its relatives with one more row are asked, alone in [allow: p, denyall] and [deny: p], about the statement and all its relatives; " +
+		"qualified-name phase: every pool statement (quick: every ninth, thorough: every second, per dialect) and extra statements with table-qualified columns / stars form a family with the same statement spelled with schema qualifiers on a subset of its name occurrences " +
+		"(tables in FROM / JOIN / INSERT INTO / UPDATE / DELETE FROM / sub-selects, column and star qualifiers; 9 kinds of subsets, two schemas); pattern, table and query rules made from EVERY member (so rules with and without schema) " +
+		"are asked, alone in allow+denyall / deny / query_ignore and in a random chain, about every member, under the MySQL and the PostgreSQL dialect"
 	r.Assumptions = []string{
 		"the crypto library is not involved in this layer",
 		"statements come from a generator restricted to the grammar subset Acra's MySQL-dialect parser accepts (checked at start; a generated statement Acra's parser refuses is dropped and counted, never judged)",
 		"table rules are judged only for tables named directly in FROM (joins, parenthesised lists) of a SELECT or as INSERT target; occurrences only inside sub-selects, UPDATE/DELETE targets, UNION branches and statements without a plain table in FROM are observed and reported as not decided",
 		"%%COLUMN%% is derived with its qualifier kept (t1.id -> t1.%%COLUMN%%); comments inside a statement are not formatting variants (only margin comments are)",
 		"the number of VALUES rows an INSERT pattern stands for is documented nowhere: only what is certain is judged, for allow rules: a statement with a row that matches no row of the pattern (other literal in a column where every pattern row spells one out, or another number of values) and a statement with any other list of rows than that of a placeholder-free pattern is not admitted; additional rows that each match a pattern row, missing rows under a generalised pattern and all row-count relatives under deny patterns are observed and counted only",
+		"schema qualifiers: an allow pattern / allow table rule admits only the names it spells (same name under another schema, or a schema on exactly one side: not admitted); a deny rule spelled under one schema does not stop the name under another schema; whether a deny rule without schema also stops the schema-qualified name (or the other way round) is not promised and only counted; differences only under a placeholder are not decided",
 		"the proxy layer (forwarding, pending-query queue) is a separate part of this monitor (ProxyLayer)",
 	}
 	if os.Getenv("VERIF_LOGS") == "" {
@@ -892,9 +907,11 @@ func Run(r *ev.Run) {
 	}
 	r.Count("pool_statements", int64(len(w.pool)))
 	r.Count("pool_unparseable_strings", int64(len(w.junk)))
-	r.Count("row_count_relatives", int64(len(w.all)-len(w.pool)))
 	for _, s := range w.all[len(w.pool):] {
-		r.SetAdd("row_count_relative_kinds", s.Rows.Kind)
+		if s.Rows != nil {
+			r.Count("row_count_relatives", 1)
+			r.SetAdd("row_count_relative_kinds", s.Rows.Kind)
+		}
 	}
 
 	t0 := time.Now()
@@ -906,6 +923,10 @@ func Run(r *ev.Run) {
 	t0 = time.Now()
 	w.rowsPhase(r, r.Pick(7, 31))
 	r.Extra("wall_rows_phase_s", time.Since(t0).Seconds())
+	t0 = time.Now()
+	w.qualPhase(r, r.Pick(3, 7), r.Pick(9, 2))
+	r.Extra("wall_qual_phase_s", time.Since(t0).Seconds())
+	qualGuards(r)
 
 	r.Extra("formatting_variants", censorgen.VariantNames)
 	r.RequireAtLeast("configs", int64(r.Pick(250, 18000)))
